@@ -24,6 +24,9 @@ TESTS = {
                              bound='one-hot vectors at 4 indices x 5 values around each of 12 anchors (0, gamma1-beta, gamma2, (q-1)/2, q, domain end; both signs) and 7 two-hot vectors'),
     'nf_reductions': dict(fns=['partial_reduce64', 'partial_reduce32', 'full_reduce32', 'mont_reduce', 'to_mont', 'mat_vec_mul'], props=['C15', 'C18', 'C13', 'C09', 'C02'],
                           bound='partial_reduce64 on ~4200 points of its domain (powers of two, ends, multiples of q, LCG sweep), partial/full_reduce32 on ~950 points, mont_reduce on 100 caller-shaped products'),
+    'nf_key_sweep': dict(fns=['key_gen_internal', 'private_to_public_key', 'get_public_key', 'keygen_from_seed', 'into_bytes', 'power2round', 'full_reduce32'],
+                         props=['C11', 'C04', 'C09', 'C13'], profile='release-checked',
+                         bound='48000 consecutive seeds over the three parameter sets (release build with debug assertions and overflow checks on): derived == generated public key bytes, every 32nd pair reloaded and re-serialised'),
     'nf_sk_fields': dict(fns=['sk_decode', 'expand_private', 'try_from_bytes', 'bit_unpack', 'is_in_range'], props=['C10', 'C13'],
                          bound='every s1/s2 field position x every field value, on one honestly generated key per parameter set'),
 }
@@ -42,6 +45,22 @@ def run_native(repo, vdir, scratch, tests, timeout=1200):
             fh.write('pub(super) const PK_HEX: &str = "%s";\npub(super) const SIG_HEX: &str = "%s";\npub(super) const MSG_HEX: &str = "%s";\n' % (f1['pk_hex'], f1['sig_hex'], f1['message_hex']))
     env = dict(os.environ, CARGO_NET_OFFLINE='true', RUSTFLAGS='--cap-lints=warn', CARGO_TARGET_DIR=os.path.join(scratch, 'native_target'))
     res = {}
+    heavy = [t for t in tests if TESTS[t].get('profile') == 'release-checked']
+    tests = [t for t in tests if t not in heavy]
+    for t in heavy:
+        # optimised build, but with the library's self-checks and integer-overflow checks compiled in
+        env2 = dict(env, RUSTFLAGS='--cap-lints=warn -C debug-assertions=on -C overflow-checks=on', CARGO_TARGET_DIR=os.path.join(scratch, 'native_target_rel'))
+        try:
+            p = subprocess.run(['cargo', 'test', '--release', '--offline', '--lib', 'verif_native::' + t, '--', '--ignored', '--exact'], cwd=d, env=env2,
+                               capture_output=True, text=True, timeout=timeout)
+            out = p.stdout + p.stderr
+            m = re.search(r'test verif_native::%s \.\.\. (ok|FAILED)' % t, out)
+            mm = re.search(r"thread 'verif_native::%s'[^\n]*panicked at [^\n]*\n([^\n]*)" % t, out)
+            res[t] = dict(status=(m.group(1) if m else 'NOT_RUN'), message=(mm.group(1).strip() if mm else ('' if m else out[-600:])), bound=TESTS[t]['bound'])
+        except subprocess.TimeoutExpired:
+            res[t] = dict(status='TIMEOUT', message='', bound=TESTS[t]['bound'])
+    if not tests:
+        return res
     try:
         p = subprocess.run(['cargo', 'test', '--offline', '--lib', 'verif_native', '--', '--test-threads', '4'], cwd=d, env=env,
                            capture_output=True, text=True, timeout=timeout)
